@@ -435,7 +435,7 @@ func (st *state) evalLiveness(res *Result, vio func(string, string, map[string]a
 			which = "a probe batch submitted after a fresh responsive peer connected"
 		}
 		extra := map[string]any{
-			"probe_batch":                              probe.idx,
+			"probe_batch": probe.idx,
 			"dispatcher_parked_at_workmanager_go_line": probe.dispLine,
 			"dispatcher_same_statement_in_two_samples": probe.dispParked,
 			"dispatcher_stack":                         probe.dispStack,
@@ -580,4 +580,3 @@ func (st *state) evalRank(res *Result, vio func(string, string, map[string]any))
 		}
 	}
 }
-
